@@ -18,7 +18,8 @@ CLAIM = dict(
           "shrink-then-grow across DIM (the spill copies the live cells only) and sized construction on either side of DIM. (Three repairs found here are in the tree: vector "
           "destructor, static_vector(n) capacity test, value-initialisation of the cells exposed by a growing resize / the sized "
           "constructor.) REFUTED (known findings): maybe / either of a non-trivial type assign into raw storage and never run the "
-          "destructor; small_vector over the utl types leaks and assigns into raw storage once it leaves its static arm. "
+          "destructor (modelled with exact payload event counts; their observable tag and value are proved to be std's; a case "
+          "is listed only when the implementation's counts equal the model's); small_vector over the utl types leaks and assigns into raw storage once it leaves its static arm. "
           "Tied to the C++ by exhaustive histories over a 14-symbol alphabet plus seeded long histories, each also run on "
           "std::vector / std::optional / std::variant in the same process, with the library's malloc/free redirected to a counting "
           "allocator, in NDEBUG and ASan+UBSan builds."),
@@ -36,7 +37,7 @@ RULE = ("utl::vector<int>, utl::static_vector<int,4>, small_vector<int,4> (defau
 THEOREM_STATUS = {
     "proved": ["C19_vector_refines_std", "C19_vector_memory_and_allocation_balance",
                "C19_static_vector_refines_bounded_std", "C19_static_vector_refuses_beyond_capacity",
-               "C19_self_assignment_harmless", "C19_copies_independent", "C19_small_vector_refines_std"],
+               "C19_self_assignment_harmless", "C19_copies_independent", "C19_small_vector_refines_std", "C19_nontrivial_maybe_either_contents"],
     "partial": [],
     "refuted": ["C19_nontrivial_maybe_refuted"]}
 ASSUMPTIONS = ["malloc never fails (every constructor gets a block; malloc(0) is a block of length 0)",
@@ -50,7 +51,8 @@ ASSUMPTIONS = ["malloc never fails (every constructor gets a block; malloc(0) is
 
 
 def drivers(tier):
-    return {"c19": [("c19.cpp", "ndebug", ()), ("c19.cpp", "asan", ())]}
+    # -fno-lifetime-dse: the 0xAB fill of the storage a tracked maybe / either is constructed in must survive
+    return {"c19": [("c19.cpp", "ndebug", ("-fno-lifetime-dse",)), ("c19.cpp", "asan", ("-fno-lifetime-dse",))]}
 
 
 SEQ_ALPHA = ["d", "c0", "c2", "c5", "p", "r0", "r2", "r5", "w0", "w3", "k", "a", "b", "s", "f"]
@@ -96,6 +98,12 @@ def gen_cases(rng, tier):
     for kind, alpha in (("may", MAY_ALPHA), ("mayt", MAY_ALPHA), ("eit", EIT_ALPHA), ("eitt", EIT_ALPHA)):
         for n in range(1, 5):
             for syms in itertools.product(alpha, repeat=n): add("exhaustive", hist(kind, syms))
+    # seeded longer histories for the tagged unions (trivial and tracked payload): copy-construction / assignment between
+    # engaged and empty objects, either alternative, into constructed and raw members
+    for kind, alpha in (("may", MAY_ALPHA), ("mayt", MAY_ALPHA), ("eit", EIT_ALPHA), ("eitt", EIT_ALPHA)):
+        for _ in range(600 if tier == "quick" else 6000):
+            n = rng.randint(5, 14)
+            add("random-tagged", hist(kind, [rng.choice(alpha) for _ in range(n)]))
     # seeded long histories: growth across the capacity, shrink-then-grow, copy-then-mutate-source, assignment between sizes
     nrand = 1500 if tier == "quick" else 20000
     for kind in ("vec", "svec", "small", "smalls"):
@@ -142,7 +150,7 @@ def _heap_ok(h):
     if h is None or "unmodelled" in h: return True
     m = re.search(r"a=(\d+) f=(\d+) bad=(\d+)", h)
     if not m or m.group(1) != m.group(2) or m.group(3) != "0": return False
-    for k in ("oob", "live", "badassign", "baddestroy"):
+    for k in ("oob", "live", "asgraw", "baddestroy"):
         mm = re.search(r"\b%s=(\d+)" % k, h)
         if mm and mm.group(1) != "0": return False
     return True
@@ -185,8 +193,14 @@ def enters_dynamic_arm(toks):
 def classify(line, impl, spec, model):
     toks = line.split(" "); kind = toks[0]; hist = toks[1:]
     if kind in ("mayt", "eitt"):
-        d = _parts(impl) if "|" in impl else None
-        if d and d["contents"] == spec.strip() and d.get("std") == spec.strip() and re.search(r"badassign=[1-9]| live=[1-9]", d.get("heap", "")):
+        # KNOWN only when the implementation shows EXACTLY the payload event counts the model of the pinned code predicts
+        # for this history (constructions, destructions, assignments, assignments into raw storage, live objects) and the
+        # observable contents are the std ones; any other count is a violation
+        if "|" not in impl or "|" not in model: return None
+        d, m = _parts(impl), _parts(model)
+        if d["contents"] != spec.strip() or d.get("std") != spec.strip() or m["contents"] != spec.strip(): return None
+        ic = re.search(r"obj (.*)$", d.get("heap", "")); mc = re.search(r"obj (.*)$", m.get("heap", ""))
+        if ic and mc and ic.group(1).strip() == mc.group(1).strip() and re.match(r"heap a=0 f=0 bad=0 ", d["heap"]):
             return "nontrivial-maybe-either-raw-assign-no-destructor"
         return None
     if kind == "small" and enters_dynamic_arm(hist):
@@ -194,7 +208,12 @@ def classify(line, impl, spec, model):
         # into raw union storage, no destructor): a trap, a leak, and sometimes garbage in a copy (e.g. `small r5 r0 r1 r4 k`).
         # The contents of small_vector's own logic are judged exactly on the default configuration (kind smalls).
         d = _parts(impl) if "|" in impl else None
-        if impl.startswith("trap") or (d and d.get("std") == spec.strip() and not _heap_ok(d.get("heap"))):
-            return "small_vector-utl-dynamic-arm-leak-raw-assign"
+        if impl.startswith("trap"): return "small_vector-utl-dynamic-arm-leak-raw-assign"
+        if d and d.get("std") == spec.strip() and not _heap_ok(d.get("heap")):
+            # without a copy / assignment of the small_vector itself the outcome is still determined (either() zero-fills the
+            # inline member, so the raw utl::vector sees buffer_ == nullptr and allocates): the contents must be the std ones
+            # and only the leak remains.  With a copy the new either's bytes are whatever the heap block held: undetermined.
+            copies = any(t[0] in "kabs" for t in hist)
+            if copies or d["contents"] == spec.strip(): return "small_vector-utl-dynamic-arm-leak-raw-assign"
         return None
     return None
